@@ -289,6 +289,9 @@ var optCases = []optCase{
 	{"MatchCaseInsensitiveNames+RejectUnknownMembers", []jsonv2.Options{jsonv2.MatchCaseInsensitiveNames(true), jsonv2.RejectUnknownMembers(true)}, true, true, false},
 	{"MatchCaseInsensitiveNames+MatchCaseSensitiveDelimiter+RejectUnknownMembers", []jsonv2.Options{jsonv2.MatchCaseInsensitiveNames(true), jsonv1.MatchCaseSensitiveDelimiter(true), jsonv2.RejectUnknownMembers(true)}, true, true, true},
 	{"MatchCaseSensitiveDelimiter alone", []jsonv2.Options{jsonv1.MatchCaseSensitiveDelimiter(true)}, false, false, true},
+	// options spelled out as false, and switched on and off again, are as if absent
+	{"MatchCaseInsensitiveNames+MatchCaseSensitiveDelimiter(false)+RejectUnknownMembers", []jsonv2.Options{jsonv2.MatchCaseInsensitiveNames(true), jsonv1.MatchCaseSensitiveDelimiter(false), jsonv2.RejectUnknownMembers(true)}, true, true, false},
+	{"MatchCaseSensitiveDelimiter(true) then (false), MatchCaseInsensitiveNames(false) then (true), RejectUnknownMembers(true) then (false)", []jsonv2.Options{jsonv1.MatchCaseSensitiveDelimiter(true), jsonv2.MatchCaseInsensitiveNames(false), jsonv2.RejectUnknownMembers(true), jsonv1.MatchCaseSensitiveDelimiter(false), jsonv2.MatchCaseInsensitiveNames(true), jsonv2.RejectUnknownMembers(false)}, true, false, false},
 }
 
 // checkGraph compares Marshal's member list and Unmarshal's field targeting with the resolver.
@@ -669,7 +672,7 @@ func omitCases() []omitCase {
 func checkOmit() (n int64, msgs []string) {
 	for _, oc := range omitCases() {
 		for _, tag := range []string{"", "omitzero", "omitempty", "omitzero,omitempty", "string"} {
-			for _, opt := range []string{"default", "OmitZeroStructFields"} {
+			for _, opt := range []string{"default", "OmitZeroStructFields", "OmitEmptyWithLegacySemantics"} {
 				n++
 				if tag == "string" && !oc.numeric {
 					continue
@@ -691,6 +694,9 @@ func checkOmit() (n int64, msgs []string) {
 				if opt == "OmitZeroStructFields" {
 					opts = append(opts, jsonv2.OmitZeroStructFields(true))
 				}
+				if opt == "OmitEmptyWithLegacySemantics" {
+					opts = append(opts, jsonv1.OmitEmptyWithLegacySemantics(true))
+				}
 				b, err := jsonv2.Marshal(v.Interface(), opts...)
 				if err != nil {
 					msgs = append(msgs, fmt.Sprintf("%s with tag %q (%s): Marshal failed: %v", oc.name, tag, opt, err))
@@ -708,6 +714,19 @@ func checkOmit() (n int64, msgs []string) {
 					switch string(alone) {
 					case "null", `""`, "{}", "[]":
 						empty = true
+					default:
+						empty = false
+					}
+				}
+				if opt == "OmitEmptyWithLegacySemantics" {
+					// "empty" is a property of the Go value: false, 0, a nil pointer or interface, a string, map, slice or array of length 0
+					switch k := oc.val.Kind(); k {
+					case reflect.Bool, reflect.Int, reflect.Float64:
+						empty = oc.val.IsZero()
+					case reflect.Pointer, reflect.Interface:
+						empty = oc.val.IsNil()
+					case reflect.String, reflect.Map, reflect.Slice, reflect.Array:
+						empty = oc.val.Len() == 0
 					default:
 						empty = false
 					}
@@ -811,6 +830,9 @@ func checkWide() (n int64, msgs []string) {
 }
 
 func replayCase(cs Case) string {
+	if cs.Part == "fold" {
+		return foldOne(rune(cs.Index), map[string]int{"0": 0, "1": 1}[cs.Opt])
+	}
 	if cs.Part == "omit-stream" {
 		var ti, L int
 		fmt.Sscan(cs.Name, &ti)
@@ -849,7 +871,7 @@ func Replay(r *evid.Run, raw json.RawMessage) {
 }
 
 func Run(r *evid.Run) {
-	r.Rule("every struct type graph from a generator: root with <=R fields, each either a leaf (Go name A/B x {untagged, named A, named B, named a, case:ignore, named B + case:strict}) or an embedded struct (Go anonymous or `embed` option, value or pointer) nested <=2 levels with <=2 fields each - so that equal JSON names at equal and different depths, tagged/untagged ties and case variants are all forced - built with reflect.StructOf; excluded: graphs with two same-named non-embedded fields in one struct (documented error) and graphs in which the same struct type is embedded more than once (undocumented). Oracle: an independent resolver written from doc.go (breadth-first, shallowest wins, a single explicitly named field breaks a tie, otherwise all tied fields dropped, depth-first declaration order; case-sensitive by default, case-insensitive ignoring '_' and '-' where requested with exact match preferred and ambiguity an error; unknown names ignored or rejected): Marshal of a value whose leaves carry distinct sentinels emits exactly the resolver's (name, sentinel) list in order; Unmarshal of {name:99} for 7 name variants x 4 option sets stores into exactly the resolver's field. Plus omitzero/omitempty/string on 23 value kinds x 5 tags x OmitZeroStructFields, and 63..130-field structs (member i -> field i; duplicate of member i detected, for every i). evaluations = type graphs x calls; distinct_nontrivial = distinct graphs with at least one name collision")
+	r.Rule("every struct type graph from a generator: root with <=R fields, each either a leaf (Go name A/B x {untagged, named A, named B, named a, case:ignore, named B + case:strict}) or an embedded struct (Go anonymous or `embed` option, value or pointer) nested <=2 levels with <=2 fields each - so that equal JSON names at equal and different depths, tagged/untagged ties and case variants are all forced - built with reflect.StructOf; excluded: graphs with two same-named non-embedded fields in one struct (documented error) and graphs in which the same struct type is embedded more than once (undocumented). Oracle: an independent resolver written from doc.go (breadth-first, shallowest wins, a single explicitly named field breaks a tie, otherwise all tied fields dropped, depth-first declaration order; case-sensitive by default, case-insensitive ignoring '_' and '-' where requested with exact match preferred and ambiguity an error; unknown names ignored or rejected): Marshal of a value whose leaves carry distinct sentinels emits exactly the resolver's (name, sentinel) list in order; Unmarshal of {name:99} for 7 name variants x 8 option sets (incl. options spelled out as false and switched on and off again) stores into exactly the resolver's field. Plus omitzero/omitempty/string on 23 value kinds x 5 tags x {default, OmitZeroStructFields, OmitEmptyWithLegacySemantics}, and 63..130-field structs (member i -> field i; duplicate of member i detected, for every i). evaluations = type graphs x calls; distinct_nontrivial = distinct graphs with at least one name collision")
 	r.Assume("resolver written from doc.go", "reflect.StructOf builds the same field layouts a declared struct would have")
 	sp := newSpace(r.Tier)
 	enum.Parallel(r, len(sp.units), func(w *enum.Worker) func(int) {
@@ -904,6 +926,7 @@ func Run(r *evid.Run) {
 	})
 	r.Sample(Case{Part: "graph", Graph: sp.build(sp.units[len(sp.units)/2]).String()})
 	r.Bound("%d struct type graphs (level-0 structs %d, level-1 structs %d, root embed options %d)", len(sp.units), len(sp.l0), len(sp.l1), len(sp.rootEmb))
+	foldTable(r)
 	n, msgs := checkOmit()
 	r.Evaluations.Add(n)
 	r.Nontrivial.Add(n)
